@@ -561,34 +561,37 @@ struct QExpression {
     }
 
     SizeT64I operator%(const QExpression &right) const noexcept {
-        SizeT64I result = 0;
+        SizeT64I left_number  = 0;
+        SizeT64I right_number = 0;
 
         switch (Type) {
             case ExpressionType::NaturalNumber:
             case ExpressionType::IntegerNumber: {
-                if (right.Type == ExpressionType::RealNumber) {
-                    result = (Value.Number.Integer % SizeT64I(right.Value.Number.Real));
-                } else {
-                    result = (Value.Number.Integer % right.Value.Number.Integer);
-                }
-
+                left_number = Value.Number.Integer;
                 break;
             }
 
             case ExpressionType::RealNumber: {
-                result = SizeT64I(Value.Number.Real);
-                if (right.Type == ExpressionType::RealNumber) {
-                    result %= SizeT64I(right.Value.Number.Real);
-                } else {
-                    result %= right.Value.Number.Integer;
-                }
+                left_number = SizeT64I(Value.Number.Real);
+                break;
             }
 
             default: {
             }
         }
 
-        return result;
+        if (right.Type == ExpressionType::RealNumber) {
+            right_number = SizeT64I(right.Value.Number.Real);
+        } else {
+            right_number = right.Value.Number.Integer;
+        }
+
+        if ((right_number == SizeT64I{0}) || (right_number == SizeT64I{-1})) {
+            // Zero is rejected by the caller; -1 divides everything (and INT64_MIN % -1 traps).
+            return SizeT64I{0};
+        }
+
+        return (left_number % right_number);
     }
 
     void operator&=(const QExpression &right) noexcept {
